@@ -3,6 +3,8 @@ package main
 import (
 	"fmt"
 	"go/token"
+	"sort"
+	"strings"
 
 	"golang.org/x/tools/go/ssa"
 )
@@ -160,6 +162,7 @@ func checkC06(p *Program, r *Reporter) {
 		}
 	}
 	e.classA("E3-A", fns)
+	periodRangeRule(p, r, sp)
 	// (d) start numbers
 	r.Rule("E4-STARTNR", "per-period startNumber depends on the configured start number", 2)
 	for _, b := range sp.Blocks {
@@ -176,6 +179,66 @@ func checkC06(p *Program, r *Reporter) {
 			r.Decide(okDep, "E4-STARTNR", shortFn(sp), "store:SegmentTemplate.StartNumber", p.pos(st.Pos()), "depends on the configured start number (or copies a startNumber that does)",
 				"the per-period startNumber cannot depend on the configured start number (snr_N)", nil)
 		}
+	}
+}
+
+// periodRangeRule: the set of emitted periods (the bounds of the loop that clones the input period) is a
+// function of the window edges, the period duration and nothing else. A bound that also reads the asset,
+// the MPD type or another request option makes the newest or oldest period appear late or early for some
+// instants, so that a segment listed in single-period mode is in no period.
+func periodRangeRule(p *Program, r *Reporter, sp *ssa.Function) {
+	r.Rule("E4-PERIODRANGE", "the range of emitted periods depends on the window edges and the period duration only", 1)
+	allowed := map[string]bool{
+		"app.wrapTimes.startTimeMS": true, "app.wrapTimes.nowMS": true,
+		"app.ResponseConfig.PeriodsPerHour": true, "app.ResponseConfig.PeriodsPerHour*": true,
+	}
+	n := 0
+	for _, fn := range cluster(sp) {
+		for _, b := range fn.Blocks {
+			for _, in := range b.Instrs {
+				c, ok := in.(*ssa.Call)
+				if !ok {
+					continue
+				}
+				callee := c.Common().StaticCallee()
+				if callee == nil || callee.Name() != "Clone" || calleePkgPath(callee) == pkgApp || !strings.HasSuffix(callee.String(), "Period).Clone") {
+					continue
+				}
+				seenTest := map[ssa.Value]bool{}
+				for _, cd := range effectiveCDeps(b, true) {
+					if !isLoopTest(cd) || seenTest[cd.V] {
+						continue
+					}
+					seenTest[cd.V] = true
+					n++
+					leaves := map[string]bool{}
+					sliceVisitUntil(p, cd.V, true, func(x ssa.Value) {
+						if f, ok := loadedField(x); ok {
+							leaves[f] = true
+						}
+					}, func(x ssa.Value) bool {
+						f, ok := loadedField(x)
+						return ok && allowed[f]
+					})
+					var bad, have []string
+					for f := range leaves {
+						if allowed[f] {
+							have = append(have, f)
+						} else {
+							bad = append(bad, f)
+						}
+					}
+					sort.Strings(bad)
+					sort.Strings(have)
+					r.Decide(len(bad) == 0, "E4-PERIODRANGE", shortFn(fn), "period-loop-bound", p.pos(instrPos(cd.At.Instrs[len(cd.At.Instrs)-1])),
+						"the loop test reads only "+strings.Join(have, ", "),
+						"the range of emitted periods also depends on "+strings.Join(bad, ", ")+": for some instants a period is announced late/early and its segments are in no period", nil)
+				}
+			}
+		}
+	}
+	if n == 0 {
+		r.Broken("splitPeriod: no loop around the period Clone call found")
 	}
 }
 
